@@ -1,14 +1,14 @@
 (* C11 — The two-phase-commit variable behaves as one copy and does not livelock.
    Only the property theorems, each closed by `exact <lemma>`, Print Assumptions beneath, and
    non-vacuity examples. Model: C11/Model.v (tied to distsys/resources/twopc.go by ./check C11).
-   `cfg tr` is the repaired code (commits 8fb21428, f44e10ca, 718e9920) over transport tr
+   `cfg tr` is the repaired code (commits 8fb21428, f44e10ca, 718e9920, 84372a69) over transport tr
    (Local = in-process handle, pointers preserved; Rpc = every delivered tla.Value re-allocated).
    Every theorem quantifies over: any number n of replicas, any initial value, every event list
    (= every interleaving of application calls, deliveries in any order, any number of times or never,
    replies consumed in any order or replaced by a timeout), any written values, any clock readings that
    increase per node. *)
 From PGV Require Import C11.Model C11.Proofs0 C11.Proofs1 C11.Proofs2 C11.Proofs3 C11.Proofs4 C11.Proofs5
-  C11.ProofsT C11.ProofsL.
+  C11.ProofsT C11.ProofsL C11.ProofsD.
 From Coq Require Import Lia.
 
 (* versions only grow: between any two states of an execution *)
@@ -103,6 +103,29 @@ Theorem contenders_progress_all : forall tr n z es s i xi v,
     forall j y, get s' j = Some y -> n_ver y = n_ver xi + 1 /\ n_old y = v.
 Proof. intros tr n z es s i xi v H. exact (progress_lemma tr n z s i xi v (ex_intro _ es H)). Qed.
 Print Assumptions contenders_progress_all.
+
+(* aborts_drain: see C11/ProofsD.v for `draining` (every replica is idle or rolling back, and every accepted
+   pre-commit is held for a proposer that is rolling back its attempt of that version - the situation after
+   rejected or aborted proposals, however many overlap). Delivering every such proposer's Abort once to every other
+   replica and answering it is possible and ends in a released state: each Abort passes the stale-message filter,
+   matches sender and version, and the broadcasts complete. *)
+Theorem aborts_drain : forall tr n z es s,
+  run (cfg tr) (init_state n z) es = Some s -> draining s ->
+  exists es' s', run (cfg tr) s es' = Some s' /\ released s'.
+Proof.
+  intros tr n z es s H D. destruct (aborts_drain_lemma tr n z s (ex_intro _ es H) D) as (es' & s' & h1 & _ & h2). eauto.
+Qed.
+Print Assumptions aborts_drain.
+
+(* ... hence, from every such state, after finitely many deliveries some contender commits a new version that every
+   replica installs: abort_releases and contenders_progress in one continuation *)
+Theorem aborted_proposals_then_progress : forall tr n z es s v,
+  run (cfg tr) (init_state n z) es = Some s -> 2 <= n -> draining s ->
+  exists es' s' k, run (cfg tr) s es' = Some s' /\
+    (forall j x, get s j = Some x -> n_ver x < k) /\
+    (forall j y, get s' j = Some y -> n_ver y = k /\ n_old y = v).
+Proof. intros tr n z es s v H. exact (drain_progress_lemma tr n z s v (ex_intro _ es H)). Qed.
+Print Assumptions aborted_proposals_then_progress.
 
 (* transport_independent: the same events over the in-process and the RPC transport lead to states that differ
    only in pointer identities (erase forgets them), or are impossible over both *)
@@ -205,4 +228,18 @@ Proof.
   - intros [|[|[|i]]] x H; cbn in H; try (destruct i; discriminate); inversion H; subst; cbn; repeat split; congruence.
   - repeat split; try reflexivity.
     intros [|[|[|j]]] y H; cbn in H; try (destruct j; discriminate); inversion H; subst; cbn; auto.
+Qed.
+
+(* the state in which node 0 rolls back while replica 1 still holds its pre-commit is draining *)
+Example c11_draining_nonvacuous :
+  exists s x1, run (cfg Rpc) (init_state 3 7) tr_rollback = Some s /\ draining s /\
+               get s 1 = Some x1 /\ n_tpc x1 = true.
+Proof.
+  vm_compute. do 2 eexists. split; [reflexivity|]. split; [|split; reflexivity].
+  intros [|[|[|i]]] x H; cbn in H; try (destruct i; discriminate); inversion H; subst; cbn.
+  - split; [right; unfold rolling; cbn; eauto|]. split; [discriminate|discriminate].
+  - split; [left; reflexivity|]. split; [intros _; repeat split; congruence|].
+    intros _. exists 0%nat. do 5 eexists. split; [reflexivity|]. split; [reflexivity|].
+    unfold holds_lock. cbn. auto.
+  - split; [left; reflexivity|]. split; [intros _; repeat split; congruence|discriminate].
 Qed.
